@@ -472,7 +472,7 @@ func (k *core) checkSkipFlag(rule string) []flagOrigin {
 		case "delay-load":
 			c.ok(rule, name+"-init", o.V.Pos(), "flag initialised from Params.DelayInitialVerification")
 		case "not-call":
-			hasVerify := len(k.verifyInvokes(o.Fn)) > 0
+			hasVerify := len(k.verifySites(o.Fn)) > 0
 			c.check(hasVerify, rule, name+"-transition", o.V.Pos(),
 				"flag reassigned only to !"+relName(o.Fn)+"(...) (the enable helper, which invokes Verify)",
 				"flag reassigned from a function that never invokes Verify")
@@ -583,12 +583,15 @@ func (k *core) checkEventsRefreshedOnEnable(rule string) {
 			}
 		}
 		// re-sends use the verified config
-		verified := k.verifyInvokes(f)
+		verified := k.verifySites(f)
 		for _, op := range chanOps(f) {
 			if op.Send && chanIsField(op.Chan, k.fUpdates) {
 				okV := false
-				for _, vi := range verified {
-					recv := vi.Common().Value
+				for _, vs := range verified {
+					recv := vs.Recv
+					if vs.wrap == nil {
+						recv = vs.Call.Common().Value
+					}
 					if derivesAny(recv, func(x ssa.Value) bool { return x == op.Val }, nil) || derivesAny(op.Val, func(x ssa.Value) bool { return sameValue(x, recv) }, nil) || sharesLoad(op.Val, recv) {
 						okV = true
 					}
